@@ -33,7 +33,11 @@ const (
 // corpus of messages (under the zero-seed key) that meet a rejection bound with equality
 func loadCorpus(kinds ...string) map[string][][]byte {
 	out := map[string][][]byte{}
-	f, err := os.Open("/verif/corpus/dilithium_boundary.txt")
+	dir := os.Getenv("VERIF_DIR")
+	if dir == "" {
+		dir = "/verif"
+	}
+	f, err := os.Open(dir + "/corpus/dilithium_boundary.txt")
 	if err != nil {
 		return out
 	}
@@ -138,6 +142,9 @@ func modelLines(lines []string) []string {
 	drv := os.Getenv("VERIF_DRIVER")
 	if drv == "" {
 		drv = "/verif/lean/.lake/build/bin/qrldriver"
+		if d := os.Getenv("VERIF_DIR"); d != "" {
+			drv = d + "/lean/.lake/build/bin/qrldriver"
+		}
 	}
 	cmd := exec.Command(drv)
 	cmd.Stdin = strings.NewReader(strings.Join(lines, "\n") + "\n")
